@@ -73,6 +73,14 @@ REG = {
                 "@assert / @print directives that do not mention _offset_ / _bit_length_) which is read twice with read_namespace and queried type by type at four "
                 "capacity scales (hundreds / tens of thousands with 16-bit prefixes, then 2**32.. / ..2**63 with 64-bit prefixes; within each pair the enumeration "
                 "counters and the number of Python-level calls must coincide up to noise, and no expansion may happen); "
+                "one case in six is a WIDE shape: 10-40 members side by side, most of them variable-length arrays of 1-bit / 8-bit / odd-width / multi-byte primitives "
+                "(plus fixed arrays, scalars, voids), as a structure, a union, a delimited structure / union, a member or an array element of an outer structure, "
+                "with composite-typed members cutting the run, or as a union of two wide structures; built through the constructors or rendered as a namespace "
+                "(a service whose sections consist of the members themselves, a definition nesting the type in arrays, renamed minor versions); queried at the four "
+                "capacity scales with the script above plus !=, dict / set lookup, bit_length_set % 8, ==/hash of members and their types, min/max/==/hash/% 8 of the "
+                "offset of the first / middle / last member, the inner type of a delimited type and composites one level down; the counters give up (reported with "
+                "the type and the query) beyond a budget that the oracle derives from the shape alone: 4 x the uncached work of the pairwise symbolic analysis of the "
+                "Specification's expression at the smallest scale; "
                 "non-trivial = accepted shape of depth >= 1; distinct = distinct pair",
         "technique": "Lean 4 bound on a cost model of the symbolic solver (independent of repetition counts) + measured enumeration counters of the real library compared with the model and across capacity scales",
         "level_text": "Cost is modelled as the number of integers passing through itertools.product / combinations_with_replacement and leaf iteration during residue queries. Proved in Lean 4 for all operator trees and "
